@@ -2,8 +2,8 @@
 from harness._compute import search_with, sym_correspondence
 
 PROPERTY = "C11"
-LEAN_TARGETS = ["VectorModel.Props.C11", "VectorModel.Props.MethodBin", "VectorModel.Props.UfuncDenote"]
-THEOREM_FILES = ["VectorModel/Props/C11.lean", "VectorModel/Props/MethodBin.lean", "VectorModel/Props/UfuncDenote.lean"]
+LEAN_TARGETS = ["VectorModel.Props.C11", "VectorModel.Props.MethodBin", "VectorModel.Props.UfuncDenote", "VectorModel.Props.C11Triple"]
+THEOREM_FILES = ["VectorModel/Props/C11.lean", "VectorModel/Props/MethodBin.lean", "VectorModel/Props/UfuncDenote.lean", "VectorModel/Props/C11Triple.lean"]
 NOT_COVERED = ["float64 rounding", "tau-stored 4D vectors scaled by a negative factor (exact result not representable with tau >= 0)"]
 ALWAYS_SEARCH = True
 search = search_with("c11")
